@@ -6,6 +6,7 @@ import (
 	"fmt"
 	"os"
 	"os/exec"
+	"runtime"
 	"sort"
 	"strconv"
 	"strings"
@@ -58,6 +59,8 @@ func c08World() map[string]spec.V {
 	w["an2"] = spec.V{K: "dyn", L: []spec.V{{K: "int", S: "30", N: "Age"}, {K: "string", S: "eve", N: "Name"}, {K: "float64", S: "2.5", N: "Score"}}}
 	return w
 }
+
+var c08Analyses int
 
 func c08Data(j int) map[string]interface{} {
 	switch j % 3 {
@@ -196,6 +199,25 @@ func checkPure(c pureCase) string {
 			firstFields[i] = key
 			if m := unchanged(i, "field analysis"); m != "" {
 				return m
+			}
+			// what the analysis reports is a function of the text: a freshly parsed tree of the same text
+			// (after the collector has had a chance to recycle whatever earlier histories dropped) reports the same
+			c08Analyses++
+			if c08Analyses%64 == 0 {
+				runtime.GC()
+			}
+			if fp := obs.Parse([]byte(texts[i])); fp.OK() {
+				var f2 []string
+				var e2 error
+				var p2 interface{}
+				func() {
+					defer func() { p2 = recover() }()
+					f2, e2 = formula.ResolveReferenceFields(fp.Src)
+				}()
+				sort.Strings(f2)
+				if k2 := fmt.Sprintf("%v|%v|%v", f2, e2, p2); k2 != key {
+					return fmt.Sprintf("step %d: field analysis of the pooled tree of %q gave %s, of a freshly parsed tree of the same text %s", step+1, texts[i], key, k2)
+				}
 			}
 		case "malformed":
 			// rejected texts: the error (and the formatted first diagnostic) is a function of the text alone
